@@ -399,7 +399,14 @@ def admin (input implOut : Json) : Option (Json × Bool) := do
     | "unlock" => some (finish (Admin.doUnlock o true false w) fun _ => [])
     | "onboard" => some (finish (Admin.doOnboard o w) fun _ => [])
     | "changepin" => some (finish (Admin.doChangePin o w) fun _ => [])
-    | "pubkeys" => some (finish (Admin.doGetPubkeys o w) fun ks => [("pubkeys", .arr (ks.map Json.ofBytes))])
+    | "pubkeys" =>
+      let table : List (Bytes × Option Bytes) := match input.get? "key_norm" with
+        | some (.obj kvs) => kvs.filterMap fun (k, v) => (Bytes.ofHex? k).map fun kb => (kb, v.asBytes?)
+        | _ => []
+      let keyNorm (b : Bytes) : Option Bytes := match table.find? (·.1 == b) with
+        | some (_, r) => r
+        | none => some b
+      some (finish (Admin.doGetPubkeys o keyNorm w) fun ks => [("pubkeys", .arr (ks.map Json.ofBytes))])
     | _ => none)
   let ievs ← evsOfJson? (← implOut.get? "events")
   let iok ← (← implOut.get? "ok").asBool?
